@@ -75,7 +75,8 @@ class TinyDB(DataBase):
         attribute: str
             attribute to be searched for
         """
-        nested_fields = attribute.split(".")
+        # Attribute paths are relative to the stored message (as in the dictionary back-end)
+        nested_fields = ["dataObject"] + attribute.split(".")
         # Dynamically build the query
         for field in nested_fields:
             query = getattr(query, field)
